@@ -256,6 +256,14 @@ pub fn o_model(input: &[u8], p: &P) -> Out {
 			compare_frames(&g.frames, &rg, rg.rows.len(), true)?;
 			// every struct below a character that keeps validity bits keeps one per row, equal to the presence
 			let n = rg.rows.len();
+			// (the per-frame Start and End records exist for every row)
+			for (name, bm) in [("start", g.frames.start.as_ref().and_then(|x| x.validity.as_ref())), ("end", g.frames.end.as_ref().and_then(|x| x.validity.as_ref()))] {
+				if let Some(b) = bm {
+					if b.len() != n || b.unset_bits() != 0 {
+						return Err(("struct-validity".into(), format!("frames.{}: validity bitmap has {} bits ({} unset) for {} rows", name, b.len(), b.unset_bits(), n)));
+					}
+				}
+			}
 			for (pi, port) in g.frames.ports.iter().enumerate() {
 				for fo in [false, true] {
 					let d = match (fo, &port.follower) {
